@@ -200,7 +200,7 @@ def tie_products(rng, n):
 
 def parse_tok(t):
     cs, e, m = t.split(":")
-    return cs[0], int(cs[1]) if len(cs) > 1 else 0, int(e), int(m, 16)
+    return cs[0], int(cs[1]) if len(cs) > 1 else 0, int(e), int(m.split("~")[0], 16)
 
 
 def exh_unary(ops, fmts, modes=MODES, values=all_values):
@@ -507,6 +507,36 @@ def rem_min_exponent_lines(rng, n):
         y = ftok("N", rng.randrange(2), s.emin, ym)
         lines.append("rem %s %s %s" % (s, x, y))
     return lines
+
+
+_TOK_RE = None
+
+
+def pad_lines(rng, lines, frac=1.0):
+    """the same requests with the significands of the operands stored in MORE words than needed (`hex~len`: leading zero
+    words, as left behind by shifts, from_u128, from_parts): numerically identical inputs whose internal representation
+    differs - the model sees the value only, so any difference in the answers is the implementation's"""
+    import re
+    global _TOK_RE
+    if _TOK_RE is None:
+        _TOK_RE = re.compile(r"(?<![0-9a-zA-Z])(N[01]:-?[0-9]+:)([0-9a-f]+)(?![0-9a-zA-Z~/])")
+    out = []
+    for ln in lines:
+        if rng.random() > frac:
+            continue
+
+        def rep(m):
+            v = int(m.group(2), 16)
+            words = max(1, (v.bit_length() + 63) // 64)
+            return "%s%s~%d" % (m.group(1), m.group(2), words + rng.choice([1, 1, 2, 3, 6, 11]))
+        new = _TOK_RE.sub(rep, ln)
+        t = new.split()
+        if t and t[0] == "frombig" and "~" not in t[-1] and "/" not in t[-1]:
+            v = int(t[-1], 16)
+            new = " ".join(t[:-1] + ["%s~%d" % (t[-1], max(1, (v.bit_length() + 63) // 64) + rng.choice([1, 2, 5, 9]))])
+        if new != ln:
+            out.append(new)
+    return out
 
 
 def int_lines(rng, n):
